@@ -19,7 +19,7 @@ import (
 // tracked change) and untracked files not in C are still there, unchanged.
 
 func init() {
-	fw.Register(&fw.Check{ID: "C25", Level: "exploration", Run: runC25, QuickBudget: 90, ThoroughBudget: 1200})
+	fw.Register(&fw.Check{ID: "C25", Level: "exploration", Run: runC25, QuickBudget: 150, ThoroughBudget: 1200})
 }
 
 // A commit assigns a kind to "a" (- 1 2 x l) and a shape to "d":
